@@ -488,6 +488,7 @@ func propC17b(t *rapid.T) {
 	}
 	ids := []string{w.wallets[0].id, w.wallets[1].id}
 	stdAddrs := [][]string{w.wallets[0].stdAddrs(), w.wallets[1].stdAddrs()}
+	passes := []string{w.wallets[0].keys.Pass, w.wallets[1].keys.Pass}
 	dest, _ := massutil.NewAddressWitnessScriptHash(w.strangers[0][:], config.ChainParams)
 	stop := make(chan struct{})
 	var wg sync.WaitGroup
@@ -520,6 +521,10 @@ func propC17b(t *rapid.T) {
 					raw, _ := hex.DecodeString(hexTx)
 					var mtx wire.MsgTx
 					if mtx.SetBytes(raw, wire.Packet) == nil {
+						if n%2 == 0 {
+							// sign it (unlocks and re-locks the keystore's private keys)
+							W.SignRawTx([]byte(passes[k]), "ALL", &mtx)
+						}
 						W.ClearUsedUTXOMark(&mtx)
 					}
 				}
@@ -535,6 +540,8 @@ func propC17b(t *rapid.T) {
 			case 8:
 				if n%27 == 8 {
 					W.NewAddress(massutil.AddressClassWitnessV0)
+				} else if n%27 == 17 {
+					W.ExportWallet(ids[k], passes[k])
 				}
 			}
 			atomic.AddInt64(&calls, 1)
